@@ -459,6 +459,15 @@ def fmt_value(it, kind, val, f):
             fcell = Ref(Cell(Agg('Formatter', None, [f])))
             r = it.call(name, [Ref(Cell(v)), fcell])
             return
+    if kind == 'lowerhex' and is_sym(v) and not z3.is_fp(v) and not f.spec:
+        # hex digits of a symbolic integer: fork on the number of digits, digits are solver terms
+        w = v.size()
+        nd = 1
+        while nd < w // 4 and not it.branch(z3.ULT(v, 1 << (4 * nd))): nd += 1
+        for i in range(nd - 1, -1, -1):
+            nib = z3.ZeroExt(32 - 4, z3.Extract(4 * i + 3, 4 * i, v)) if w >= 4 * i + 4 else z3.BitVecVal(0, 32)
+            f.out.append((z3.simplify(z3.If(z3.ULT(nib, 10), nib + 48, nib + 87)), 1))
+        return
     if kind in ('display', 'debug', 'lowerhex') and (is_sym(v) or isinstance(v, float)):
         f.out.append(('opaque', kind, v)); return
     raise Unsupported('fmt %s of %r' % (kind, v))
@@ -1072,6 +1081,12 @@ def install(prog):
             if r.var == 0: return out
             out.append(r.f[0])
 
+    @M(r'<\(.*\) as PartialEq>::(eq|ne)')
+    def _(it, m, a):
+        r = values_equal(it, deref(a[0]), deref(a[1]))
+        if m.group(1) == 'eq': return r
+        return (not r) if isinstance(r, bool) else z3.Not(r)
+
     @M(r'<Vec<.*> as PartialEq>::(eq|ne)|<\[.*\] as PartialEq>::(eq|ne)')
     def _(it, m, a):
         x, y = as_slice(it, a[0]), as_slice(it, a[1])
@@ -1284,6 +1299,11 @@ def install(prog):
     @M(r'<char as (?:std::fmt::)?Display>::fmt')
     def _(it, m, a):
         ch = deref(a[0]); deref(a[1]).f[0].out.append((ch, len_utf8(it, ch))); return mk_ok(UNIT)
+
+    @M(r'<char as ToString>::to_string|<&char as ToString>::to_string')
+    def _(it, m, a):
+        ch = deref(a[0])
+        return StrObj([(ch, len_utf8(it, ch))])
 
     @M(r'<.* as ToString>::to_string')
     def _(it, m, a):
@@ -1603,6 +1623,52 @@ def install(prog):
         for ch, w in c.sr.obj.chars[c.sr.a + c.i:c.sr.b]:
             items.append(Agg('tuple', None, [o, ch])); o += w
         return VecIntoIter(items[::-1])
+
+
+    # ---- operator traits on (references to) primitive integers ---------------------------------------
+    @M(r'<&?(u8|u16|u32|u64|usize|i8|i16|i32|i64|isize) as (Add|Sub|Mul|Div|Rem|Shl|Shr|BitAnd|BitOr|BitXor)(?:<&?(\w+)>)?>::(?:add|sub|mul|div|rem|shl|shr|bitand|bitor|bitxor)')
+    def _(it, m, a):
+        ty, op = m.group(1), m.group(2)
+        x, y = deref(a[0]), deref(a[1])
+        w, sg = INT_TYPES[ty]
+        if op in ('Add', 'Sub', 'Mul'):
+            r = it.overflow_op(op, x, y, ty)
+            if it.overflow_checks and it.branch(r.f[1]): raise Panic('attempt to %s with overflow' % op.lower(), 'overflow')
+            return r.f[0]
+        if op in ('Div', 'Rem'):
+            if it.branch(it.binop('Eq', y, 0, ty)): raise Panic('attempt to divide by zero', 'div-zero')
+            if sg and it.branch(it.binop('Eq', x, -(1 << (w - 1)), ty)) and it.branch(it.binop('Eq', y, -1, ty)):
+                raise Panic('attempt to divide with overflow', 'overflow')
+            return it.binop(op, x, y, ty)
+        if op in ('Shl', 'Shr'):
+            rty = m.group(3) or ty
+            big = it.binop('Ge', y, w, rty)
+            if it.branch(big):
+                if it.overflow_checks: raise Panic('attempt to shift with overflow', 'overflow')
+                y = it.binop('BitAnd', y, w - 1, rty)
+            if is_sym(y): y = it.resize(y, w) if y.size() != w else y
+            return it.binop(op, x, y, ty)
+        return it.binop(op, x, y, ty)
+
+    @M(r'<&?(u8|u16|u32|u64|usize|i8|i16|i32|i64|isize|bool) as Not>::not')
+    def _(it, m, a):
+        v = deref(a[0])
+        if isinstance(v, bool): return not v
+        if is_sym(v): return z3.Not(v) if z3.is_bool(v) else ~v
+        w, sg = INT_TYPES[m.group(1)]
+        return wrap_int(~v, w, sg)
+
+    @M(r'<(u8|u16|u32|u64|usize|i8|i16|i32|i64|isize) as (AddAssign|SubAssign|MulAssign|BitAndAssign|BitOrAssign|BitXorAssign|ShlAssign|ShrAssign)(?:<&?(\w+)>)?>::\w+')
+    def _(it, m, a):
+        ty, op = m.group(1), m.group(2)[:-6]
+        x, y = a[0].get(), deref(a[1])
+        if op in ('Add', 'Sub', 'Mul'):
+            r = it.overflow_op(op, x, y, ty)
+            if it.overflow_checks and it.branch(r.f[1]): raise Panic('attempt to %s with overflow' % op.lower(), 'overflow')
+            a[0].set(r.f[0])
+        else:
+            a[0].set(it.binop(op, x, y, ty))
+        return UNIT
 
     # ---- logging: empty bodies (log level is statically disabled) -------------------------------
     @M(r'<Level as PartialOrd<LevelFilter>>::le|<log::Level as PartialOrd<log::LevelFilter>>::le')
